@@ -36,6 +36,12 @@ def appendInOrder : Bool := true
 
 def timeoutSkipsRow : Bool := true
 
+/-- every scan worker turns a `ZeroDivisionError` of the simulator into a failed result (`guardZeroDiv`) -/
+def workersCatchZeroDivision : Bool := true
+
+/-- `Simulation.default` does not raise for a model that cannot be evaluated at its initial state -/
+def placeholderSurvivesZeroDivision : Bool := true
+
 def drivers : List Driver := [
   { module := "scan", name := "steady_state", table := "to_scan", container := .positional, workerY0None := true, y0OnModel := true, passesParallel := true, passesMaxWorkers := false, passesCache := true, passesTimeout := false },
   { module := "scan", name := "time_course", table := "to_scan", container := .byLabel, workerY0None := true, y0OnModel := true, passesParallel := true, passesMaxWorkers := false, passesCache := true, passesTimeout := false },
